@@ -42,6 +42,12 @@ def taylor_coeffs(mf, x0, n):
     old = mp.mp.dps
     mp.mp.dps = old + 6 * n
     try:
+        # mp.taylor differentiates numerically with absolute step / chop thresholds: a function whose values are tiny or huge at
+        # x0 (exp(-161) = 1e-70) comes back as 0.  Differentiate f / |f(x0)| instead and scale back.
+        f0 = mf(x0)
+        a0 = abs(f0)
+        if a0 != 0 and not (mp.mpf('1e-20') < a0 < mp.mpf('1e20')):
+            return [+(v * a0) for v in mp.taylor(lambda z: mf(z) / a0, x0, n)]
         return [+v for v in mp.taylor(mf, x0, n)]
     finally:
         mp.mp.dps = old
